@@ -74,11 +74,19 @@ def make_plan(run_seed: int, profile: Dict[str, Any]) -> Dict[str, Any]:
     if rng.random() < 0.4:
         for _ in range(rng.choice([1, 2])):
             z3_faults.append({"kind": rng.choice(["z3_unknown", "z3_unknown", "z3_outage", "z3_starved"]), "at_call": rng.randrange(60), "len": rng.choice([2, 5, 21])})
+    perturbations = [gen_perturbation(rng, i) for i in range(n_children)]
+    if st["activate_unsat_support"]:
+        # with unsat support ISLa bounds every nested unsatisfiability check by 2 s of
+        # *its own* clock: there the passage of time matters by design (a slower machine
+        # may legitimately see other results), so the clock stands still for all children
+        for p in perturbations:
+            p["clock_rate"] = 0.0
+            p["stalls"] = {}
     return {
         "engine": ENGINE, "run_seed": run_seed, "phase": "repro",
         "scenario": scenario, "prng_seed": rng.randrange(1 << 30), "k": rng.choice([5, 10, 20, 30]),
         "op_work": profile.get("op_work", 1_500_000),
-        "ops": [gen_perturbation(rng, i) for i in range(n_children)],  # one op = one child = one perturbation schedule
+        "ops": perturbations,  # one op = one child = one perturbation schedule
         "faults": z3_faults,
     }
 
